@@ -191,6 +191,24 @@ class C03(UdpCheck):
                 for j in range(rng.choice([1, 3])):
                     plan.append({"op": "send", "c": op["c"], "t": round(op["t"] + 0.002 + j * 0.02, 4), "len": rng.choice([8, 60, 2000]),
                                  "retry": rng.choice([0, 1, -1]), "cb": False, "api": "send"})
+        if rng.random() < 0.3:
+            # the application gives up while the handshake is still in flight: disconnect() right after connect() (no key
+            # yet - whatever the client emits now must not be anything but its hello), then a fresh attempt
+            cfg["latency"] = max(cfg["latency"], rng.choice([0.02, 0.05]))
+            c = rng.randrange(n)
+            op = next(o for o in plan if o["op"] == "connect" and o["c"] == c)
+            plan.append({"op": "disconnect", "c": c, "t": round(op["t"] + rng.choice([0.001, 0.01, 0.03]), 4)})
+            plan.append({"op": "connect", "c": c, "t": round(op["t"] + 0.6, 4), "reuse": rng.random() < 0.5})
+        if rng.random() < 0.5:
+            # an orderly end of a session with a backlog: reliable messages still unacknowledged when the client says
+            # goodbye / the server kicks it - the goodbye datagram may carry them along
+            c = rng.randrange(n)
+            t = round(cfg["duration"] - 2.5, 3)
+            who = rng.choice(["send", "ssend"])
+            for j in range(rng.choice([3, 10])):
+                plan.append({"op": who, "c": c, "t": round(t - 0.3 + j * 0.02, 4), "len": rng.choice([30, 200, 900]), "retry": 1,
+                             "cb": False, "api": "send", "kind": 0})
+            plan.append({"op": rng.choice(["disconnect", "sdisconnect"]), "c": c, "t": t})
         for j in range(rng.choice([0, 1, 3])):
             plan.append({"op": "clockstep", "c": rng.randrange(n), "t": round(rng.random() * cfg["duration"], 3),
                          "d": rng.choice([0.001, 0.02, 0.05])})
